@@ -21,12 +21,27 @@ FUNCS = ['optiland.optic.Optic.add_surface', 'optiland.optic.Optic.set_radius', 
 TYPES = ('standard', 'plane', 'even_asphere', 'polynomial', 'chebyshev')
 
 
-def make_lens(ctx, kinds, obj='inf', tilt_at=None, stops=None, mats=None):
+def make_lens(ctx, kinds, obj='inf', tilt_at=None, stops=None, mats=None, concrete=None):
     """build a lens surface by surface in index order; returns (optic, spec) where spec holds the numbers given"""
     from optiland.optic import Optic
     o = Optic()
     K = len(kinds)
     spec = dict(K=K, t=[], R=[], k=[], n=[], coef=[], cs=[], stop_flags=[], kinds=kinds, mats=[])
+    concrete = concrete or {}
+    _real = ctx.real
+
+    class _C:
+        """ctx whose real() returns a constant for the names listed in `concrete` (fewer symbols where the harness
+        does not need them)"""
+        def __getattr__(self, a):
+            return getattr(ctx_outer, a)
+
+        def real(self, name, **kw):
+            if name in concrete:
+                return ctx_outer.pinned(name, concrete[name])
+            return _real(name, **kw)
+    ctx_outer = ctx
+    ctx = _C()
     t0 = np.inf if obj == 'inf' else ctx.real('t0', lo=0.0, lo_strict=True)
     spec['t0'] = t0
     o.add_surface(index=0, thickness=t0)
